@@ -27,6 +27,8 @@ import (
 	"sync"
 	"testing"
 	"time"
+
+	"github.com/snower/slock/protocol"
 )
 
 type vRedisCmd struct {
@@ -35,6 +37,7 @@ type vRedisCmd struct {
 	K    string   `json:"k"`    // model key
 	V    []int    `json:"v"`    // value argument as bytes
 	D    int      `json:"d"`    // numeric argument
+	MaxT int      `json:"maxticks"` // clock seconds a waiting command may take before it is called hung (default 40)
 }
 
 type vRedisScenario struct {
@@ -144,6 +147,85 @@ func vNoReply() map[string]interface{} {
 
 // tickPanic = true: the panic happened in a timer sweep (shard mutex left locked: the world is unusable)
 func vRunRedisCmd(w *vWorld, c *vRedisConn, args []string) (reply map[string]interface{}, ticks int, panicked string, hung bool, tickPanic bool) {
+	reply, ticks, panicked, hung, tickPanic, _ = vRunRedisCmdX(w, c, args, 40, "")
+	return
+}
+
+// vRedisKey is the LockKey the text converter derives from a key argument.
+func vRedisKey(key string) [16]byte {
+	var k [16]byte
+	protocol.NewTextCommandConverter().ConvertArgId2LockId(key, &k)
+	return k
+}
+
+// vTermMs: a (value, flag) pair of a lock command in milliseconds; -1 = unlimited
+func vTermMs(v uint16, flag uint16, unlimited bool) int64 {
+	if unlimited {
+		return -1
+	}
+	if flag&0x0400 != 0 { // *_FLAG_MILLISECOND_TIME
+		return int64(v)
+	}
+	if flag&0x0040 != 0 { // *_FLAG_MINUTE_TIME
+		return int64(v) * 60000
+	}
+	return int64(v) * 1000
+}
+
+// vRedisTtlPeek is the projection of a key's time-to-live: the deadline of the hold that carries the value,
+// relative to the virtual clock, and the term of the command that last set it (in-package read).
+func vRedisTtlPeek(w *vWorld, key string) map[string]interface{} {
+	res := map[string]interface{}{"held": false, "unlimited": false, "left_ms": 0, "term_ms": 0, "ef": 0, "ex": 0}
+	db := w.slock.dbs[0]
+	if db == nil {
+		return res
+	}
+	cmd := &protocol.LockCommand{}
+	cmd.LockKey = vRedisKey(key)
+	m := db.GetLockManager(cmd)
+	if m == nil || m.refCount == 0xffffffff || m.currentLock == nil || m.locked == 0 {
+		return res
+	}
+	l := m.currentLock
+	res["held"] = true
+	unl := l.expriedTime == 0x7fffffffffffffff
+	res["unlimited"] = unl
+	if !unl {
+		res["left_ms"] = (l.expriedTime - w.now) * 1000
+	}
+	if l.command != nil {
+		res["ef"] = int(l.command.ExpriedFlag)
+		res["ex"] = int(l.command.Expried)
+		res["term_ms"] = vTermMs(l.command.Expried, l.command.ExpriedFlag, l.command.ExpriedFlag&protocol.EXPRIED_FLAG_UNLIMITED_EXPRIED_TIME != 0)
+	}
+	return res
+}
+
+// vRedisWaitPeek: the wait term (ms) of the newest queued request on the key, -2 when nobody is queued.
+func vRedisWaitPeek(w *vWorld, key string) int64 {
+	db := w.slock.dbs[0]
+	if db == nil {
+		return -2
+	}
+	cmd := &protocol.LockCommand{}
+	cmd.LockKey = vRedisKey(key)
+	m := db.GetLockManager(cmd)
+	if m == nil || m.refCount == 0xffffffff || m.waitLocks == nil {
+		return -2
+	}
+	term := int64(-2)
+	for _, node := range m.waitLocks.IterNodes() {
+		for _, l := range node {
+			if l != nil && !l.timeouted && l.ackCount == 0xff && l.command != nil {
+				term = vTermMs(l.command.Timeout, l.command.TimeoutFlag, false)
+			}
+		}
+	}
+	return term
+}
+
+func vRunRedisCmdX(w *vWorld, c *vRedisConn, args []string, maxTicks int, peekKey string) (reply map[string]interface{}, ticks int, panicked string, hung bool, tickPanic bool, waitTerm int64) {
+	waitTerm = -2
 	fin := make(chan string, 1)
 	go func() {
 		defer func() {
@@ -163,7 +245,9 @@ func vRunRedisCmd(w *vWorld, c *vRedisConn, args []string) (reply map[string]int
 		}()
 		h, err := c.p.FindHandler(strings.ToUpper(args[0]))
 		if err != nil {
-			fin <- "no handler for " + args[0]
+			// what the server does with a command it has no handler for (server/protocol.go RunCommand)
+			_ = c.p.commandHandlerUnknownCommand(c.p, args)
+			fin <- ""
 			return
 		}
 		_ = h(c.p, args)
@@ -174,39 +258,43 @@ func vRunRedisCmd(w *vWorld, c *vRedisConn, args []string) (reply map[string]int
 		select {
 		case p := <-fin:
 			if p != "" {
-				return vNoReply(), ticks, p, false, false
+				return vNoReply(), ticks, p, false, false, waitTerm
 			}
 			// the reply was written before the handler returned; the reader goroutine may lag a moment
 			for k := 0; k < 20000; k++ {
 				if r, ok := c.take(); ok {
-					return r, ticks, "", false, false
+					return r, ticks, "", false, false, waitTerm
 				}
 				time.Sleep(100 * time.Microsecond)
 			}
-			return vNoReply(), ticks, "", false, false
+			return vNoReply(), ticks, "", false, false, waitTerm
 		case <-time.After(wait):
 			wait = 3 * time.Millisecond
 			// waiting for a timer of the lock engine: advance the virtual clock
-			if ticks >= 40 {
+			if ticks == 0 && peekKey != "" {
+				// the command is waiting: read the term of its queued request before the clock moves
+				_ = vCaught(func() { waitTerm = vRedisWaitPeek(w, peekKey) })
+			}
+			if ticks >= maxTicks {
 				// every timer of the engine is long past: give a slow machine real time before calling it hung
 				select {
 				case p := <-fin:
 					if p != "" {
-						return vNoReply(), ticks, p, false, false
+						return vNoReply(), ticks, p, false, false, waitTerm
 					}
 					for k := 0; k < 20000; k++ {
 						if r, ok := c.take(); ok {
-							return r, ticks, "", false, false
+							return r, ticks, "", false, false, waitTerm
 						}
 						time.Sleep(100 * time.Microsecond)
 					}
-					return vNoReply(), ticks, "", false, false
+					return vNoReply(), ticks, "", false, false, waitTerm
 				case <-time.After(10 * time.Second):
-					return vNoReply(), ticks, "", true, false
+					return vNoReply(), ticks, "", true, false, waitTerm
 				}
 			}
 			if p := vCaught(func() { w.Tick("te") }); p != "" {
-				return vNoReply(), ticks, p, true, true
+				return vNoReply(), ticks, p, true, true, waitTerm
 			}
 			ticks++
 		}
@@ -273,7 +361,8 @@ func TestVerifRedis(t *testing.T) {
 				v = []int{}
 			}
 			ev := map[string]interface{}{"e": "rcmd", "name": sc.Name, "i": j, "c": cm.C, "k": cm.K, "v": v, "d": cm.D, "args": cm.Args,
-				"ticks": 0, "panic": "", "hung": false, "reply": vNoReply()}
+				"ticks": 0, "panic": "", "hung": false, "reply": vNoReply(), "wait_term_ms": -2,
+				"ttl": map[string]interface{}{"held": false, "unlimited": false, "left_ms": 0, "term_ms": 0, "ef": 0, "ex": 0}}
 			if cm.C == "TICK" {
 				p := vCaught(func() {
 					for k := 0; k < cm.D; k++ {
@@ -295,8 +384,36 @@ func TestVerifRedis(t *testing.T) {
 				}
 				continue
 			}
-			reply, ticks, p, hung, tickPanic := vRunRedisCmd(w, c, cm.Args)
+			args := make([]string, len(cm.Args))
+			copy(args, cm.Args)
+			for ai, a := range args {
+				// "@s+n" / "@ms+n": an absolute wall-clock time n seconds / milliseconds from now (EXPIREAT / PEXPIREAT
+				// are converted against time.Now() by the server)
+				if strings.HasPrefix(a, "@s+") {
+					n, _ := strconv.ParseInt(a[3:], 10, 64)
+					for time.Now().Nanosecond() > 700000000 { // stay clear of the second boundary
+						time.Sleep(20 * time.Millisecond)
+					}
+					args[ai] = strconv.FormatInt(time.Now().Unix()+n, 10)
+				} else if strings.HasPrefix(a, "@ms+") {
+					n, _ := strconv.ParseInt(a[4:], 10, 64)
+					args[ai] = strconv.FormatInt(time.Now().UnixMilli()+n, 10)
+				}
+			}
+			maxT := cm.MaxT
+			if maxT <= 0 {
+				maxT = 40
+			}
+			peekKey := ""
+			if len(cm.Args) > 1 {
+				peekKey = cm.Args[1]
+			}
+			reply, ticks, p, hung, tickPanic, waitTerm := vRunRedisCmdX(w, c, args, maxT, peekKey)
 			ev["reply"], ev["ticks"], ev["panic"], ev["hung"] = reply, ticks, p, hung
+			ev["wait_term_ms"] = waitTerm
+			if p == "" && !hung && peekKey != "" {
+				_ = vCaught(func() { ev["ttl"] = vRedisTtlPeek(w, peekKey) })
+			}
 			tr.Emit(ev)
 			if tickPanic {
 				worlds = append(worlds, w.dir)
